@@ -1082,6 +1082,7 @@ pub async fn cmd_tls(args: Vec<String>) -> Result<()> {
     let ca1 = read_der(set1.join("client/ca.der"))?;
     let ca2 = read_der(set2.join("client/ca.der"))?;
     let mut k = 0u64;
+    let mut timeouts = 0u32;
     for c in &cases {
         k += 1;
         let cid = c["client"].as_str().unwrap();
@@ -1097,6 +1098,9 @@ pub async fn cmd_tls(args: Vec<String>) -> Result<()> {
             _ => None,
         };
         let topic = format!("/vtls/case{k}");
+        // a server that has stopped answering handshakes makes every attempt run into its time limit: after a
+        // few of those the limit is shortened (the verdicts are the same, they just come sooner)
+        let patience = Duration::from_secs(if timeouts >= 6 { 2 } else { 10 });
         let (connected, registered, detail) = if addr.port() == 9 {
             // this server could not be started (recorded above): nobody can talk to it
             (false, false, "server is not running".to_string())
@@ -1113,7 +1117,7 @@ pub async fn cmd_tls(args: Vec<String>) -> Result<()> {
                 (_, Some(d)) => Some((vec![read_der(d.join("client/localhost.der"))?], read_der(d.join("client/localhost.key.der"))?)),
                 _ => None,
             };
-            match tokio::time::timeout(Duration::from_secs(10), raw_connect_chain(addr, ca, ident)).await {
+            match tokio::time::timeout(patience, raw_connect_chain(addr, ca, ident)).await {
                 Ok(Ok(conn)) => {
                     // with TLS 1.3 the client may consider the handshake done before the server has
                     // judged its certificate: the registration decides
@@ -1158,12 +1162,15 @@ pub async fn cmd_tls(args: Vec<String>) -> Result<()> {
                 drop(sub);
                 Ok::<_, anyhow::Error>(())
             };
-            match tokio::time::timeout(Duration::from_secs(10), r).await {
+            match tokio::time::timeout(patience, r).await {
                 Ok(Ok(())) => (true, true, "ok".to_string()),
                 Ok(Err(e)) => (false, false, format!("refused: {e}")),
                 Err(_) => (false, false, "timeout".to_string()),
             }
         };
+        if detail.contains("timeout") {
+            timeouts += 1;
+        }
         log.emit("tls", json!({"case": k, "client": cid, "server": sid, "trust": trust, "via": via, "connected": connected,
             "registered": registered, "detail": detail.chars().take(100).collect::<String>()}));
     }
